@@ -61,8 +61,8 @@ func (g *gen) call(st *State, instr ssa.Instruction, cc *ssa.CallCommon, res ssa
 		recv := g.val(cc.Value)
 		g.oblige(st, "safe:nil", lbl, Neq(recv.L[0], Int(0)), "method call on nil interface")
 		key := fmt.Sprintf("(%s).%s", typeKey(cc.Value.Type()), cc.Method.Name())
-		g.checkCallGuards(st, cc.Method.Name(), lbl)
 		args := append([]*Val{recv}, g.argVals(cc)...)
+		g.checkCallGuards(st, cc.Method.Name(), lbl, args)
 		if con := g.eng.contracts.byKey[key]; con != nil {
 			g.bindResult(res, g.applyContract(st, con, args, rt, lbl))
 			return
@@ -104,6 +104,19 @@ func (g *gen) call(st *State, instr ssa.Instruction, cc *ssa.CallCommon, res ssa
 			if g.eng.isAssumedPure(key) {
 				g.eng.useAssumption("assume-pure " + key + " (package-level function value, never nil)")
 				g.bindResult(res, g.freshResult(st, rt, gl.Name()))
+				return
+			}
+		}
+	}
+	// call through a function-typed struct field declared heap-neutral (e.g. a console callback)
+	if ld, ok := cc.Value.(*ssa.UnOp); ok {
+		if fa, ok := ld.X.(*ssa.FieldAddr); ok {
+			st0 := fa.X.Type().Underlying().(*types.Pointer).Elem()
+			key := "field:" + typeKey(st0) + "." + fieldPath(st0, fa.Field)
+			if g.eng.isHeapNeutralEffect(key) {
+				g.eng.useAssumption("calls through " + key + " are heap-neutral effects and the field is never nil")
+				g.effect(st, "call through "+key, nil)
+				g.bindResult(res, g.freshResult(st, rt, "cb"))
 				return
 			}
 		}
@@ -153,7 +166,7 @@ func (g *gen) closureCall(st *State, fn *ssa.Function, bindings, args []*Val, rt
 
 func (g *gen) staticCall(st *State, fn *ssa.Function, args []*Val, rt types.Type, res ssa.Value, lbl string) {
 	key := fn.String()
-	g.checkCallGuards(st, fn.Name(), lbl)
+	g.checkCallGuards(st, fn.Name(), lbl, args)
 	if con := g.eng.contracts.byKey[key]; con != nil {
 		g.eng.noteContractUse(g.fname, con)
 		g.bindResult(res, g.applyContract(st, con, args, rt, lbl))
@@ -234,6 +247,17 @@ func (g *gen) assumePre(st *State) {
 		f := g.evalBool(c.Expr, env, false)
 		g.assumeGlobal(f)
 		g.preTerms = append(g.preTerms, f)
+		var split func(t *Term)
+		split = func(t *Term) {
+			if t.Op == "and" {
+				for _, a := range t.Args {
+					split(a)
+				}
+				return
+			}
+			g.preConj[t.id] = true
+		}
+		split(f)
 	}
 	for _, c := range g.con.Guards {
 		f := g.evalBool(c.Expr, env, true)
@@ -310,6 +334,23 @@ func (g *gen) checkPosts() {
 				o.Pos = fmt.Sprintf("%s:%d", p.Filename, p.Line)
 			}
 		}
+		// ghost definitions: the body itself must leave the ghost untouched
+		for _, gd := range g.con.GhostDefs {
+			envc := g.specEnv(rp.st, g.entry)
+			g.bindResults(envc, g.con, rp.results, rp.st)
+			cur := envc.eval(gd.LHS)
+			envo := g.specEnv(g.entry, g.entry)
+			ne := len(g.specErrors)
+			old := envo.eval(gd.LHS)
+			if len(g.specErrors) > ne {
+				// the ghost belongs to the result (e.g. a constructor): nothing to compare with
+				g.specErrors = g.specErrors[:ne]
+				continue
+			}
+			if cur != nil && old != nil && len(cur.V.L) == 1 && len(old.V.L) == 1 {
+				g.oblige(rp.st, "ghost-def", gd.Text, Eq(cur.V.L[0], old.V.L[0]), "a function that defines a ghost update must not change that ghost through its callees")
+			}
+		}
 		// lock pairing: every mutex reachable through a known leaf has the
 		// same held state as at entry
 		g.checkLocks(rp.st)
@@ -343,8 +384,8 @@ func (g *gen) applyContract(st *State, con *Contract, args []*Val, rt types.Type
 	if con.ModAll {
 		g.havocAll(st, "call")
 	} else {
-		if !con.Pure {
-			// the callee may allocate
+		{
+			// the callee may allocate (a "pure" function may still return fresh memory)
 			nw := Fresh("wm", SInt)
 			g.assumeGlobal(Le(st.wm, nw))
 			st.wm = nw
@@ -369,6 +410,18 @@ func (g *gen) applyContract(st *State, con *Contract, args []*Val, rt types.Type
 	post := &State{reach: st.reach, heap: st.heap, wm: st.wm}
 	env2 := &SpecEnv{g: g, vars: env.vars, cur: post, old: pre, pkg: env.pkg}
 	g.bindResults(env2, con, results, post)
+	for _, gd := range con.GhostDefs {
+		g.havocLvalue(st, env, gd.LHS)
+	}
+	post = &State{reach: st.reach, heap: st.heap, wm: st.wm}
+	env2.cur = post
+	for _, gd := range con.GhostDefs {
+		l := env2.eval(gd.LHS)
+		r := env2.eval(gd.RHS)
+		if l != nil && r != nil && l.V != nil && r.V != nil && len(l.V.L) == 1 && len(r.V.L) == 1 {
+			g.assume(st, Eq(l.V.L[0], r.V.L[0]))
+		}
+	}
 	for _, c := range con.Ensures {
 		// a clause that mentions the callee's locals cannot be evaluated (or
 		// assumed) at a call site: it is skipped there
@@ -927,7 +980,7 @@ func (g *gen) bindLoopVars(env *SpecEnv, li *loopInfo, phis []*ssa.Phi) {
 // matches the pattern is only reachable when the condition holds. The
 // condition may mention parameters (entry state), local variables visible at
 // the call and lastresult(F).
-func (g *gen) checkCallGuards(st *State, callee string, lbl string) {
+func (g *gen) checkCallGuards(st *State, callee string, lbl string, args []*Val) {
 	if g.con == nil || g.dry > 0 {
 		return
 	}
@@ -937,7 +990,9 @@ func (g *gen) checkCallGuards(st *State, callee string, lbl string) {
 		}
 		env := g.specEnv(st, g.entry)
 		g.bindLocals(env)
+		g.guardArgs = args
 		f := g.evalBool(cg.Cond.Expr, env, true)
+		g.guardArgs = nil
 		g.oblige(st, "guard-call", cg.Cond.Label+":"+callee, f, "call of "+callee+" only when: "+cg.Cond.Text)
 	}
 }
@@ -960,6 +1015,23 @@ func (g *gen) checkStoreGuards(st *State, k LeafKey) {
 
 // bindLocals exposes source-level locals (dominator-correct) to a contract expression.
 func (g *gen) bindLocals(env *SpecEnv) {
+	// fallback for names that are not visible on every path to this point: if
+	// the variable denotes one single SSA value in the whole function, that
+	// value is used (it is arbitrary on paths that did not define it; the
+	// contract must guard its use with the path condition)
+	for name, set := range g.varAll {
+		if _, ok := g.varAt[name]; ok || len(set) != 1 {
+			continue
+		}
+		if _, isParam := env.vars[name]; isParam {
+			continue
+		}
+		for v := range set {
+			if val, ok := g.vals[v]; ok {
+				env.vars[name] = &SV{V: val}
+			}
+		}
+	}
 	for name, v := range g.varAt {
 		if strings.HasPrefix(name, "&") {
 			n := name[1:]
